@@ -1,11 +1,11 @@
-(* Obligation C18/tdelta_model_true.  Statement as printed by Coq from Inferno.C18.DelayAdjProofs; proof by reference.
+(* Obligation C18/tdelta_model_true.  Statement as printed by Coq from Inferno.C18.EventProofs; proof by reference.
    This file contains nothing else, so the statement cannot be weakened quietly. *)
 From Coq Require Import List ZArith Bool Reals Lra Lia.
-From Inferno Require Import Base.Num Base.NumR Gen.Stdkernels C18.DelayAdj C18.DelayAdjProofs.
+From Inferno Require Import Base.Num Base.NumR C18.DelayAdj C18.EventProofs.
 Import ListNotations.
 Open Scope R_scope.
 Theorem tdelta_model_true : forall (dt : R) (hpre hpost : list bool) (d : T RN),
   length hpre = length hpost ->
   tdelta_adj RN (ev_peek dt hpre) (ev_peek dt hpost) d = true_tdelta dt hpre hpost d.
-Proof. exact (@Inferno.C18.DelayAdjProofs.tdelta_model_true). Qed.
+Proof. exact (@Inferno.C18.EventProofs.tdelta_model_true). Qed.
 Print Assumptions tdelta_model_true.
